@@ -160,6 +160,14 @@ func runPlan(t *testing.T, sc *Scenario, plan *Plan, ch *simrt.Choices) (res Res
 		for _, p := range w.Net.Pipes {
 			fmt.Fprintf(os.Stderr, "PIPE %d addr=%s cut=%q c2s=%d bytes s2c=%d bytes closed=%v/%v\n", p.ID, p.Addr, p.CutBy, len(p.Dir(0).Log), len(p.Dir(1).Log), p.Ends[0].closed, p.Ends[1].closed)
 		}
+		if w.TS != nil {
+			for _, e := range w.TS.events {
+				fmt.Fprintf(os.Stderr, "TEVENT %+v\n", e)
+			}
+			for _, p := range w.Net.Pipes {
+				fmt.Fprintf(os.Stderr, "PIPEOPEN %d addr=%s opened=%v cutseq=%d\n", p.ID, p.Addr, p.Opened, p.CutSeq)
+			}
+		}
 		if w.CS != nil {
 			for _, rr := range w.CS.routes {
 				fmt.Fprintf(os.Stderr, "ROUTE %+v\n", *rr)
